@@ -43,12 +43,10 @@ func NewPublishHeader(document *gedcom.Document, extraTab string, selectedTab st
 func (c *PublishHeader) WriteHTMLTo(w io.Writer) (int64, error) {
 	items := []*core.NavItem{}
 
-	if c.options.ShowIndividuals {
-		// There are no index letters when there are no visible individuals.
-		firstLetter := symbolLetter
-		if len(c.indexLetters) > 0 {
-			firstLetter = c.indexLetters[0]
-		}
+	// There are no index letters, and no index pages, when there are no visible
+	// individuals. A tab would link to a page that does not exist.
+	if c.options.ShowIndividuals && len(c.indexLetters) > 0 {
+		firstLetter := c.indexLetters[0]
 
 		badge := core.NewCountBadge(len(c.document.Individuals()))
 		title := core.NewComponents(core.NewText("Individuals "), badge)
